@@ -470,6 +470,12 @@ class Checker:
             app = [c for s in after for c in ast.walk(s) if isinstance(c, ast.Call) and isinstance(c.func, ast.Attribute) and c.func.attr == 'append']
             ok = len(app) == 1 and src(app[0].func.value) == lst and src(app[0].args[0]) == goal
             rep.ob('R16.6', fi, 'goal appended last', ok, 'goal is not appended exactly once after the walk')
+            # ... on every way out: the append is a statement of the function body itself, not under a condition or in a loop
+            uncond = [s_ for s_ in after if isinstance(s_, ast.Expr) and app and s_.value is app[0]]
+            rep.ob('R16.6', fi, 'goal appended unconditionally', (not ok) or bool(uncond),
+                   'the goal is appended only under a condition (%s): for some goals the returned path ends at a tree node instead of the goal'
+                   % next((src(s_.test)[:80] for s_ in after if isinstance(s_, ast.If) and app and any(c is app[0] for c in ast.walk(s_))), 'nested statement'),
+                   line=app[0].lineno if app else w.lineno)
             rets = [n for n in after if isinstance(n, ast.Return)]
             rep.ob('R16.6', fi, 'returns the walked list', bool(rets) and src(rets[0].value) == lst, 'returned value is not the walked list')
             # tree generated before extraction, once
